@@ -85,6 +85,13 @@ impl<T: Copy> Block for RationalResampler<T> {
                 opos += 1;
                 if opos == o.len() {
                     out_full = true;
+                    if self.counter > 0 {
+                        // Output is full in the middle of the copies of this
+                        // sample. Leave the sample in the input, so that the
+                        // remaining copies are emitted next time.
+                        taken -= 1;
+                        self.counter -= self.interp;
+                    }
                     break 'outer;
                 }
             }
